@@ -141,6 +141,8 @@ class WAPProtocol(HTTPProtocol):
         wfile = self.wfile
         wfile.write(b"HTTP/1.0 200 Not Found\r\n")
         wfile.write(b"Content-Type: text/vnd.wap.wml\r\n\r\n")
+        if self.requestparts[0] == "HEAD":
+            return
         wfile.write(wmlheader.encode())
         wfile.write(b'<card id="index" title="404 Error" newcontext="true">\n')
         wfile.write(b"<p><b>Gopher Error</b></p><p>\n")
